@@ -880,36 +880,46 @@ fn replace_histories(ctx: &Ctx, kinds: &[Kind]) {
         if !k.owned() {
             continue;
         }
-        // handles: 0 R0, 1 R1, 2 map{R0,R1}, 3 map{R0} (after remove), 4 removed R1, 5 atomic(map 2), 6 snapshot
-        let prefix = vec![
-            Op::Create(k),
-            Op::Create(k),
-            Op::Build(vec![0, 1]),
-            Op::Remove { map: 2, slot: 1 },
-            Op::MakeAtomic(2),
-            Op::Snapshot(5),
-            Op::Replace { atomic: 5, map: 3 },
-        ];
-        // every order of dropping the four other owners of R1 (indices shift as handles go)
-        let owners = [1usize, 2, 4, 6];
+        for family in 0..2usize {
+        // family 0 - handles: 0 R0, 1 R1, 2 map{R0,R1}, 3 map{R0} (after remove), 4 removed R1, 5 atomic(map 2), 6 snapshot;
+        // every order of dropping the four other owners of R1 (indices shift as handles go).
+        // family 1 - the replacement brings a region the snapshot never saw: 0 R0, 1 R1, 2 map{R0},
+        // 3 map{R0,R1}, 4 atomic(map 2), 5 snapshot (of map{R0}), then map 3 is published; the
+        // owners of R1 (its handle, map 3, the replaceable memory) go in every order while the old
+        // snapshot stays: it keeps R0 alive and nothing else
+        let (prefix, owners, nlive): (Vec<Op>, Vec<usize>, usize) = if family == 0 {
+            (
+                vec![Op::Create(k), Op::Create(k), Op::Build(vec![0, 1]), Op::Remove { map: 2, slot: 1 }, Op::MakeAtomic(2), Op::Snapshot(5), Op::Replace { atomic: 5, map: 3 }],
+                vec![1usize, 2, 4, 6],
+                7,
+            )
+        } else {
+            (
+                vec![Op::Create(k), Op::Create(k), Op::Build(vec![0]), Op::Build(vec![0, 1]), Op::MakeAtomic(2), Op::Snapshot(4), Op::Replace { atomic: 4, map: 3 }],
+                vec![1usize, 3, 4],
+                6,
+            )
+        };
         let mut orders: Vec<Vec<usize>> = Vec::new();
-        for a in 0..4 {
-            for b in 0..4 {
-                for c in 0..4 {
-                    for d in 0..4 {
-                        let o = [a, b, c, d];
-                        let mut sorted = o;
-                        sorted.sort();
-                        if sorted == [0, 1, 2, 3] {
-                            orders.push(o.iter().map(|i| owners[*i]).collect());
-                        }
-                    }
+        {
+            // all permutations of the owners
+            fn perms(rest: &[usize], cur: &mut Vec<usize>, out: &mut Vec<Vec<usize>>) {
+                if rest.is_empty() {
+                    out.push(cur.clone());
+                }
+                for i in 0..rest.len() {
+                    let mut r = rest.to_vec();
+                    let x = r.remove(i);
+                    cur.push(x);
+                    perms(&r, cur, out);
+                    cur.pop();
                 }
             }
+            perms(&owners, &mut Vec::new(), &mut orders);
         }
         for order in orders {
             let mut hist = prefix.clone();
-            let mut live: Vec<usize> = (0..7).collect();
+            let mut live: Vec<usize> = (0..nlive).collect();
             for o in &order {
                 let pos = live.iter().position(|x| x == o).unwrap();
                 hist.push(Op::Drop(pos));
@@ -953,6 +963,7 @@ fn replace_histories(ctx: &Ctx, kinds: &[Kind]) {
             if let Some(Err((key, d))) = crate::crash::guarded(ctx, &describe, || w.finish()) {
                 ctx.fail(&format!("C12/{}", key), &format!("after {:?} and dropping all handles: {}", hist, d), json!({"history": format!("{:?}", hist), "then": "drop all"}));
             }
+        }
         }
     }
     ctx.add_transitions(runs);
